@@ -152,6 +152,8 @@ def examine(case):
         if br[0] == 'exc' or br[1] != best:
             return [V('best-equals-table', ['best', br[1] if br[0] == 'exc' else 'value'], base, br[:3], best)]
         f = fr[1]
+        if not f:
+            return []      # reported by the factor case
         std = best / f
         timed = is_timed(event)
         prev = None
@@ -345,12 +347,10 @@ def shard_history(ctx, payload):
             hist.append(step)
             ctx.count()
             continue
-        cells, best = row_cells(year, g, event)
-        ages = [a for a in sorted(cells) if cells[a] is not None]
+        # only covered ages (the contiguous non-null run of the row, as in the main sweep)
+        ages = [a for a in ages_for(year, g, event) if a == int(a) and a <= max(row_cells(year, g, event)[0])]
         age = rng.choice(ages)
         kind = 'factor' if k < 7 else 'grade'
-        if kind == 'grade' and (cells.get(age) is None):
-            kind = 'factor'
         case = {'kind': kind, 'year': year, 'g': g, 'event': event, 'age': age}
         ctx.count()
         vs = examine(case)
